@@ -145,6 +145,34 @@ def _reducible(seg, t0, t1):
     return "no" if d3 > 1e-2 else ("yes" if d3 < 3e-4 else "maybe")
 
 
+def _merge_collinear(curve):
+    """model of clean() on straight pieces: a vertex between two straight
+    segments that are exactly aligned (same direction) is redundant.  Returns
+    (curve without such vertices, decidable); not decidable when some vertex
+    is almost but not exactly aligned (cross product in (0, 1e-5]), where the
+    library's absolute 1e-6 test may go either way."""
+    segs = [list(s) for s in curve]
+    decidable = True
+    changed = True
+    while changed and len(segs) > 3:
+        changed = False
+        n = len(segs)
+        for i in range(n):
+            a, b = segs[i], segs[(i + 1) % n]
+            if len(a) != 2 or len(b) != 2:
+                continue
+            da, db = rg.sub(a[1], a[0]), rg.sub(b[1], b[0])
+            cr = rg.cross(da, db)
+            if cr == 0 and rg.dot(da, db) > 0:
+                segs[i] = [a[0], b[1]]
+                segs.pop((i + 1) % n)
+                changed = True
+                break
+            if abs(float(cr)) <= 1e-5 and rg.dot(da, db) > 0:
+                decidable = False
+    return segs, decidable
+
+
 def _rot_equal(va, vb, exact, tol):
     n = len(va)
     if len(vb) != n:
@@ -305,7 +333,10 @@ def judge(ctx, case):
     if repr(snap1) != repr(snap2):
         ctx.violation("clean", "not-idempotent", case, "second clean() changed the curve: %d -> %d segments" % (len(snap1), len(snap2)), where)
     canonical = lib.tup(case["canonical"]) if case.get("canonical") else curve
-    if clean_regime is True or rg.curve_is_polygon(curve):
+    canonical, decidable = _merge_collinear(canonical)
+    if not decidable:
+        ctx.count("undecided-nearly-collinear-vertex")
+    elif clean_regime is True or rg.curve_is_polygon(curve):
         want = [p for seg in canonical for p in seg[:-1]]
         have = [p for seg in snap1 for p in seg[:-1]]
         if not _rot_equal(have, want, ratlines and not case.get("redundant") and all(F(t).denominator <= 64 for _, t in splits), 1e-9 * size):
